@@ -94,6 +94,13 @@ func (fv *funcVerifier) execStmt(st *State, s ast.Stmt, label string) {
 		fv.defers = append(fv.defers, x.Call)
 		fv.deferGuards = append(fv.deferGuards, st.live)
 	case *ast.GoStmt:
+		if lit, isLit := x.Call.Fun.(*ast.FuncLit); isLit && len(x.Call.Args) == 0 && fv.opt.GoInline {
+			// idealisation (stated in evidence): a spawned closure without parameters runs to completion,
+			// sequentially, at the point where it is spawned
+			fv.note("go func(){...}() executed inline at the spawn point (goroutine assumed to run to completion; interleavings not modelled)")
+			fv.inlineFuncLit(st, lit)
+			return
+		}
 		for _, a := range x.Call.Args {
 			fv.evalExpr(st, a)
 		}
@@ -540,3 +547,24 @@ func containsRecover(b *ast.BlockStmt) bool {
 }
 
 var _ = fmt.Sprintf
+
+// inlineFuncLit executes the body of a parameterless function literal in st.
+func (fv *funcVerifier) inlineFuncLit(st *State, lit *ast.FuncLit) {
+	saveDefers, saveGuards, saveExits := fv.defers, fv.deferGuards, fv.exits
+	saveLoops := fv.loops
+	fv.defers, fv.deferGuards, fv.exits, fv.loops = nil, nil, nil, nil
+	inLit := fv.inDeferLit
+	fv.inDeferLit = true
+	fv.execBlock(st, lit.Body.List)
+	if !st.dead() {
+		fv.doReturn(st, nil, lit.Body.Rbrace)
+	}
+	merged := fv.mergeAll(&State{live: smt.False}, fv.exits)
+	fv.inDeferLit = inLit
+	fv.defers, fv.deferGuards, fv.exits, fv.loops = saveDefers, saveGuards, saveExits, saveLoops
+	if merged != nil && !merged.dead() {
+		*st = *merged
+	} else {
+		st.live = smt.False
+	}
+}
